@@ -249,6 +249,16 @@ def judge_address(case) -> Verdict:
     ad = Address(G.render_addr(a, source), platform=source)
     if a["k"] == "group":
         ad.items = A.member_lines(a)
+    nested = case.get("nested") or []
+    if nested and a["k"] == "group":
+        # members that are groups themselves, with their own member networks (IOS 'group-object')
+        for sub in nested:
+            if not isinstance(sub, dict) or not sub.get("n") or not sub.get("m"):
+                raise Invalid()
+            G.validate_addr({"k": "group", "n": sub["n"], "m": sub["m"]})
+            inner = Address(G.render_addr({"k": "group", "n": sub["n"]}, source), platform=source)
+            inner.items = A.member_lines({"k": "group", "n": sub["n"], "m": sub["m"]})
+            ad.items.append(inner)
     before = ad.line
     ad.platform = case.get("alias") or target
     after = ad.line
@@ -263,7 +273,19 @@ def judge_address(case) -> Verdict:
     want = G.addr_ref(G.strip_members({"src": a, "dst": a})["src"])
     if got.meaning() != want.meaning():
         v.fail("address:meaning-changed", detail)
-    if a["k"] == "group":
+    if a["k"] == "group" and nested:
+        try:
+            plain = [x for x in ad.items if x.type != "addrgroup"]
+            inner = [x for x in ad.items if x.type == "addrgroup"]
+            got_plain = [R._read_addr(x.line.split(), 0, target, True)[0].pair for x in plain]  # pylint: disable=protected-access
+            got_inner = [(R._read_addr(x.line.split(), 0, target, True)[0].name, _member_pairs(x, target)) for x in inner]  # pylint: disable=protected-access
+            want_inner = [(sub["n"], [R.mk_pair(b, w) for b, w in sub["m"]]) for sub in nested]
+            if got_plain != list(G.addr_members(a)) or got_inner != want_inner:
+                v.fail("address:nested-group-members-changed", dict(detail, members=[[x.line, [y.line for y in x.items]] for x in ad.items]))
+        except R.RefError as ex:
+            v.fail("address:member-not-valid-target-syntax", dict(detail, why=str(ex)[:200]))
+        v.label("nested-groups")
+    elif a["k"] == "group":
         try:
             if _member_pairs(ad, target) != list(G.addr_members(a)):
                 v.fail("address:group-members-changed", dict(detail, members=[x.line for x in ad.items]))
@@ -282,7 +304,11 @@ def judge_address(case) -> Verdict:
 def address_case_st(draw, tier):
     source = draw(st.sampled_from(["ios", "nxos"]))
     to = "nxos" if source == "ios" else "ios"
-    return {"a": draw(G.addr_st(kmax=6, groups=True)), "from": source, "to": to, "alias": draw(G.alias_st(to))}
+    case = {"a": draw(G.addr_st(kmax=6, groups=True)), "from": source, "to": to, "alias": draw(G.alias_st(to))}
+    if case["a"]["k"] == "group" and draw(st.sampled_from(range(3))) == 1:
+        case["nested"] = [{"n": f"SUB{i}", "m": draw(G.addr_st(kmax=2, groups=True, kinds=["group"]))["m"]}
+                          for i in range(draw(st.integers(1, 2)))]
+    return case
 
 
 def judge_addrgroup(case) -> Verdict:
